@@ -36,11 +36,11 @@ Definition enc_client (cs : list (N * N * creq)) : list (N * N * bytes) :=
   map (fun s => (fst (fst s), snd (fst s), enc_rcds (creq_rcds (snd s)))) cs.
 
 (* MAIN: on a fault-free transport, for every buffer size, every such client, every list of well-formed handler
-   scripts and every read/write readiness pattern, the connection task RETURNS: it never ends up waiting for a
+   scripts that await the reads they start (no op 11, see PeerTargets2.v) and every read/write readiness pattern, the connection task RETURNS: it never ends up waiting for a
    client that waits for it — whether the client waits for an EndRequest or for a management reply. *)
 Definition client_never_deadlocks_stmt : Prop :=
   forall (norm : bytes -> bytes) (maxc : N) scripts B cs w0,
-  B < SIZE_LIMIT - 8 -> scripts_ok true scripts ->
+  B < SIZE_LIMIT - 8 -> scripts_ok true scripts -> Forall no_abandoned_read scripts ->
   segs w0 = enc_client cs -> client_segs 0 0 cs -> wlog w0 = [] ->
   no_fault (wscript w0) ->
   fst (run_loop norm maxc (nb w0 + 4) (new_parser B) scripts 0 w0) = ORet.
